@@ -1098,6 +1098,9 @@ func TestVerifC11Sched(t *testing.T) {
 			if start == "first" && strings.ContainsAny(ths, "RC") {
 				continue
 			}
+			if ths == "EERC" && start != "rollover" {
+				continue // 69 300 interleavings: explored from the roll-over start state only
+			}
 			if replay && (rc.Start != start || rc.Threads != ths) {
 				continue
 			}
